@@ -606,7 +606,8 @@ func (LegacyScenario) Execute(sim *sched.Sim, ci interface{}, prop string, race 
 				}
 			}))
 		}
-		for i := 0; i < 20000; i++ {
+		for i := 0; ; i++ {
+			stepBound(i, 1000000, "legacy round")
 			sim.Wait()
 			imageFilter()
 			if !sim.Decide(nil) {
